@@ -2,7 +2,6 @@ package chsql
 
 import (
 	"regexp"
-	"strings"
 	"sync"
 )
 
@@ -68,7 +67,20 @@ func utf8Len(b byte) int {
 // invalid UTF-8 makes RE2 behave differently — such inputs give ErrUnsupported).
 func likeMatch(toks []likeToken, s string, fold bool) (bool, error) {
 	if fold {
-		s = strings.ToLower(s)
+		// rule A2 (case-insensitive variants): only ASCII letters are folded here. How ClickHouse folds letters outside
+		// ASCII depends on which searcher the pattern is routed to; a pattern with such bytes is not decided.
+		for _, t := range toks {
+			if t.kind == 'c' && t.c >= 0x80 {
+				return false, unsupported("ILIKE pattern with non-ASCII bytes (case folding outside ASCII is not modelled)")
+			}
+		}
+		b := []byte(s)
+		for i, ch := range b {
+			if ch >= 'A' && ch <= 'Z' {
+				b[i] = ch + 'a' - 'A'
+			}
+		}
+		s = string(b)
 	}
 	var rec func(ti, si int) (bool, error)
 	memo := map[[2]int]bool{}
